@@ -923,6 +923,9 @@ func init() {
 		ex.counters["run-until-blocked"]++
 		return ex.ts.Bool(blocked)
 	})
+	// vfCallMayBlock(f): same mechanism for an API call that may block (native twin: runs f in a
+	// goroutine and reports whether it is still blocked after a grace period)
+	reg("vf:vfCallMayBlock", intercepts["vf:vfRunUntilBlocked"])
 	reg("hash/crc32.ChecksumIEEE", func(ex *Exec, fr *Frame, args []Value, site ssa.Instruction) Value {
 		s := args[0].(SliceV)
 		ex.counters["crc32"]++
